@@ -1,27 +1,290 @@
-(* Stream `types` (C14, C09). *)
+(* Stream `types` (C14, C09): FIX value types.
+   For every op the model recomputes the whole observation from the input; spec_ok evaluates the extracted
+   *grammar oracles* (Codec/FixIntSpec.v, Types/TypesSpec.v) against what the implementation did:
+   accept <=> grammar, the value read, and the write->read / read->write identities. *)
 open Model
 open Conv
 open Streams
 
 let is_panic = function Sx.A "panic" | Sx.A "fuel" -> true | _ -> false
+let ok l = Sx.L (Sx.A "ok" :: l)
+let err = Sx.A "err"
+let cls_of op m = op ^ (match m with Sx.A "err" -> ":reject" | Sx.A _ -> ":other" | _ -> ":accept")
+let out ?(nontrivial = true) model cls (spec_ok, spec_msg) = { model; spec_ok; spec_msg; cls; nontrivial }
+let pass = (true, "")
+let fail sig_ msg = (false, "sig=" ^ sig_ ^ " " ^ msg)
+(* first failing check wins *)
+let rec checks = function [] -> pass | (true, _, _) :: r -> checks r | (false, s, m) :: _ -> fail s m
+let z0 = z_of_int 0
 
+(* ---------- int ---------- *)
+let int_read_model d =
+  match fix_int_read d with
+  | Ok v -> ok [sx_z v; sx_bytes (fix_int_write v)]
+  | Err _ -> err | Panic -> Sx.A "panic" | OutOfFuel -> Sx.A "fuel"
+
+let int_read_spec_check d obs =
+  if is_panic obs then fail "int-read-panic" "FIXInt.Read panicked or hung" else
+  match int_read_spec d, obs with
+  | None, Sx.A "err" -> pass
+  | None, _ -> if int_grammar d then fail "int-accepts-out-of-range" "a text denoting a number outside int64 was accepted"
+               else fail "int-accepts-nongrammar" "a text outside -?[0-9]+ was accepted"
+  | Some _, Sx.A "err" -> fail "int-rejects-grammar" "a text of the int grammar within int64 was rejected"
+  | Some v, Sx.L [Sx.A "ok"; v'; w] ->
+      checks [ (z_sx v' = v, "int-wrong-value", "read value differs from the number the text denotes");
+               (not (canonical_int d) || bytes_sx w = d, "int-canonical-rewrite", "canonical text not reproduced by Write") ]
+  | _ -> fail "int-read-shape" "unexpected observation"
+
+let int_write_model n =
+  let w = fix_int_write n in
+  Sx.L [sx_bytes w; sx_res_class sx_z (fix_int_read w)]
+
+let int_write_spec_check n obs =
+  match obs with
+  | Sx.L [w; r] ->
+      let w = bytes_sx w in
+      checks [ (canonical_int w, "int-write-noncanonical", "Write produced a non-canonical text");
+               (r = ok [sx_z n], "int-roundtrip", "Read(Write(n)) is not n") ]
+  | _ -> fail "int-write-panic" "FIXInt.Write/Read panicked"
+
+(* ---------- bool ---------- *)
+let bool_read_model d =
+  match fix_bool_read d with
+  | Ok v -> ok [sx_bool v; sx_bytes (fix_bool_write v)]
+  | Err _ -> err | Panic -> Sx.A "panic" | OutOfFuel -> Sx.A "fuel"
+
+let bool_read_spec_check d obs =
+  match bool_grammar d, obs with
+  | None, Sx.A "err" -> pass
+  | None, _ -> fail "bool-accepts-nongrammar" "a text other than Y / N was accepted (or a panic)"
+  | Some _, Sx.A "err" -> fail "bool-rejects-grammar" "Y or N was rejected"
+  | Some b, Sx.L [Sx.A "ok"; b'; w] ->
+      checks [ (bool_sx b' = b, "bool-wrong-value", "wrong boolean");
+               (bytes_sx w = d, "bool-rewrite", "text not reproduced by Write") ]
+  | _ -> fail "bool-read-shape" "unexpected observation"
+
+let bool_write_model b =
+  let w = fix_bool_write b in Sx.L [sx_bytes w; sx_res_class sx_bool (fix_bool_read w)]
+
+let bool_write_spec_check b obs =
+  match obs with
+  | Sx.L [w; r] ->
+      checks [ (bool_grammar (bytes_sx w) = Some b, "bool-write-nongrammar", "Write did not produce Y / N");
+               (r = ok [sx_bool b], "bool-roundtrip", "Read(Write(b)) is not b") ]
+  | _ -> fail "bool-write-panic" "panic"
+
+(* ---------- UTC timestamp ---------- *)
+let sx_ts ((sec, ns), p) rest = ok ([sx_z sec; sx_z ns; sx_z p] @ rest)
+
+let ts_read_model d =
+  match timestamp_read d with
+  | Ok ((t, p) as v) -> sx_ts v [sx_bytes (timestamp_write t p)]
+  | Err _ -> err | Panic -> Sx.A "panic" | OutOfFuel -> Sx.A "fuel"
+
+let ts_read_spec_check d obs =
+  if is_panic obs then fail "ts-read-panic" "FIXUTCTimestamp.Read panicked or hung" else
+  match ts_read_spec d, obs with
+  | None, Sx.A "err" -> pass
+  | None, _ -> fail "ts-accepts-nongrammar" "a text outside YYYYMMDD-HH:MM:SS[.sss|.ssssss|.sssssssss] (valid date and time of day) was accepted"
+  | Some _, Sx.A "err" -> fail "ts-rejects-grammar" "a grammatical timestamp was rejected"
+  | Some ((sec, ns), p), Sx.L [Sx.A "ok"; sec'; ns'; p'; w] ->
+      checks [ (z_sx p' = p, "ts-wrong-precision", "precision differs from the one the length denotes");
+               (z_sx sec' = sec && z_sx ns' = ns, "ts-wrong-value", "instant differs from the one the text denotes");
+               (bytes_sx w = d, "ts-rewrite", "grammatical text not reproduced by Write at the read precision") ]
+  | _ -> fail "ts-read-shape" "unexpected observation"
+
+let ts_write_model sec ns p =
+  let w = timestamp_write (sec, ns) p in
+  Sx.L [sx_bytes w; (match timestamp_read w with
+                     | Ok v -> sx_ts v [] | Err _ -> err | Panic -> Sx.A "panic" | OutOfFuel -> Sx.A "fuel")]
+
+let norm_prec p = match ts_frac_len p with Some _ -> p | None -> z0
+
+let ts_write_spec_check sec ns p obs =
+  match obs with
+  | Sx.L [w; r] ->
+      if not (ts_in_rangeb (sec, ns)) then pass   (* outside years 0000..9999: no claim, model comparison only *)
+      else
+        let p' = norm_prec p in
+        let (tsec, tns) = ts_trunc p' (sec, ns) in
+        checks [ (ts_grammarb p' (bytes_sx w), "ts-write-nongrammar", "Write produced a text outside the grammar of its precision");
+                 (r = ok [sx_z tsec; sx_z tns; sx_z p'], "ts-roundtrip", "Read(Write(t)) is not t truncated to the written precision") ]
+  | _ -> fail "ts-write-panic" "panic"
+
+(* ---------- float (acceptance only; values are never compared) ---------- *)
+let float_read_model d = if float_read_ok d then Sx.A "ok" else err
+
+let float_read_spec_check d obs =
+  match float_spec d, obs with
+  | true, Sx.A "ok" | false, Sx.A "err" -> pass
+  | true, Sx.A "err" -> fail "float-rejects-grammar" "a text of the float grammar (in float64 range) was rejected"
+  | false, Sx.A "ok" ->
+      if float_grammarb d then fail "float-accepts-out-of-range" "a text beyond the float64 range was accepted"
+      else fail "float-accepts-nongrammar" "a text outside -?(D+(.D*)?|.D+) was accepted"
+  | _ -> fail "float-read-panic" "FIXFloat.Read panicked or unexpected observation"
+
+let float_write_model neg digs dp = Sx.L [sx_bytes (float_write_digits neg digs dp); Sx.A "T"]
+
+let float_write_spec_check obs =
+  match obs with
+  | Sx.L [w; rt] ->
+      checks [ (float_spec (bytes_sx w), "float-write-nongrammar", "Write produced a text outside the float grammar");
+               (rt = Sx.A "T", "float-roundtrip", "Read(Write(v)) is not v") ]
+  | _ -> fail "float-write-panic" "panic"
+
+let float_canon_model d = if float_read_ok d then Sx.A "T" else err
+let float_canon_spec_check obs =
+  if obs = Sx.A "T" then pass else fail "float-canonical-rewrite" "canonical float text not reproduced by Write(Read(s))"
+
+(* ---------- string / bytes ---------- *)
+let id_model rd wr d =
+  match rd d with Ok v -> ok [sx_bytes v; sx_bytes (wr v)] | _ -> err
+let id_spec_check name d obs =
+  if obs = ok [sx_bytes d; sx_bytes d] then pass else fail (name ^ "-identity") "Read/Write is not the identity"
+
+(* ---------- decimal (shopspring) ---------- *)
+let sx_dec (v, e) = ok [sx_z v; sx_z e]
+let dec_res = function Ok d -> sx_dec d | Err _ -> err | Panic -> Sx.A "panic" | OutOfFuel -> Sx.A "fuel"
+
+let dec_write_part d scale =
+  let w = decimal_write d scale in [sx_bytes w; dec_res (decimal_read w)]
+
+let dec_read_model s scale =
+  match decimal_read s with
+  | Ok ((v, e) as d) ->
+      if abs (int_of_z e) > 1000 then ok [sx_z v; sx_z e]   (* Write would compute 10^|e|: not exercised *)
+      else ok ([sx_z v; sx_z e] @ dec_write_part d scale)
+  | Err _ -> err | Panic -> Sx.A "panic" | OutOfFuel -> Sx.A "fuel"
+
+let dec_write_model d scale = Sx.L (dec_write_part d scale)
+
+(* Read(Write(d, scale)) denotes d rounded half away from zero to scale digits *)
+let dec_rt_check (v, e) scale w r =
+  match r with
+  | Sx.L [Sx.A "ok"; v'; e'] ->
+      let want = dec_round_half_away v e scale in
+      (dec_value_eqb (z_sx v') (z_sx e') want (Z.opp scale), "dec-roundtrip",
+       "Read(Write(d, scale)) is not d rounded half away from zero to scale digits")
+  | _ -> (false, "dec-roundtrip", "the written text was rejected by Read")
+
+(* canonical decimal text: -?D+(.D+)? without superfluous leading zeros and not -0...; rewritten at its own scale *)
+let dec_canonical s =
+  let s = string_of_bytes s in
+  let n = String.length s in
+  let body = if n > 0 && s.[0] = '-' then String.sub s 1 (n - 1) else s in
+  let neg = n > 0 && s.[0] = '-' in
+  let ip, fp = match String.index_opt body '.' with
+    | None -> body, None
+    | Some i -> String.sub body 0 i, Some (String.sub body (i + 1) (String.length body - i - 1)) in
+  let digits x = x <> "" && String.for_all (fun c -> c >= '0' && c <= '9') x in
+  let nonzero x = String.exists (fun c -> c >= '1' && c <= '9') x in
+  digits ip && (match fp with None -> true | Some f -> digits f)
+  && (String.length ip = 1 || ip.[0] <> '0')
+  && (not neg || nonzero ip || (match fp with Some f -> nonzero f | None -> false))
+
+let frac_len s =
+  let s = string_of_bytes s in
+  match String.index_opt s '.' with None -> 0 | Some i -> String.length s - i - 1
+
+let dec_read_spec_check s scale obs =
+  if is_panic obs then fail "dec-read-panic" "FIXDecimal.Read panicked or hung" else
+  match obs with
+  | Sx.A "err" -> if dec_canonical s then fail "dec-rejects-canonical" "a canonical decimal text was rejected" else pass
+  | Sx.L [Sx.A "ok"; _; _] -> pass
+  | Sx.L [Sx.A "ok"; v; e; w; r] ->
+      let d = (z_sx v, z_sx e) in
+      checks [ dec_rt_check d scale w r;
+               (not (dec_canonical s && int_of_z scale = frac_len s) || bytes_sx w = s,
+                "dec-canonical-rewrite", "canonical decimal text not reproduced by Write at its own scale") ]
+  | _ -> fail "dec-read-shape" "unexpected observation"
+
+let dec_write_spec_check d scale obs =
+  match obs with
+  | Sx.L [w; r] -> checks [ dec_rt_check d scale w r ]
+  | _ -> fail "dec-write-panic" "panic"
+
+(* ---------- udecimal ---------- *)
+let udec_part d scale =
+  let w = udecimal_write d scale in
+  [sx_bytes w; (match udecimal_read w with Ok d' -> sx_bytes (udc_string d') | _ -> err)]
+
+let udec_read_model s scale =
+  match udecimal_read s with
+  | Ok (((_, _), p) as d) -> ok ([sx_bytes (udc_string d); sx_z p] @ udec_part d scale)
+  | Err _ -> err | Panic -> Sx.A "panic" | OutOfFuel -> Sx.A "fuel"
+
+(* value of a canonical udecimal text as (coef, prec), through the independent decimal reader of TypesSpec/FixDecimal *)
+let udec_canonical s = dec_canonical s && frac_len s <= 19 && List.length s <= 200
+
+let text_value s =
+  (* (neg, coef, prec) of -?D+(.D+)? ; digits only arithmetic through the model's unbounded decimal reader *)
+  let str = string_of_bytes s in
+  let neg = String.length str > 0 && str.[0] = '-' in
+  let body = if neg then String.sub str 1 (String.length str - 1) else str in
+  let digits = String.concat "" (String.split_on_char '.' body) in
+  (neg, z_of_dec digits, z_of_int (frac_len s))
+
+let udec_read_spec_check s scale obs =
+  if is_panic obs then fail "udec-read-panic" "FIXUDecimal.Read panicked or hung" else
+  match obs with
+  | Sx.A "err" -> if udec_canonical s then fail "udec-rejects-canonical" "a canonical decimal text was rejected" else pass
+  | Sx.L [Sx.A "ok"; str; p; w; r] ->
+      (* the value read, from its canonical String() and the value written then re-read *)
+      let (neg, coef, prec) = text_value (bytes_sx str) in
+      let want = udec_trunc_spec coef prec scale in
+      let wprec = if int_of_z prec <= int_of_z scale then prec else scale in
+      let r_ok = match r with
+        | Sx.A "err" | Sx.L _ -> false
+        | r -> let (neg', coef', prec') = text_value (bytes_sx r) in
+               dec_value_eqb coef' (Z.opp prec') want (Z.opp wprec) && (neg' = neg || want = z0) in
+      (* udecimal.Parse refuses texts longer than 200 bytes (ErrMaxStrLen): a value whose written form is longer is
+         outside the domain of the round-trip claim *)
+      let r_ok = r_ok || List.length (bytes_sx w) > 200 in
+      checks [ (r_ok, "udec-roundtrip", "Read(Write(d, scale)) is not d truncated to scale digits");
+               (not (udec_canonical s && int_of_z scale = frac_len s) || bytes_sx w = s,
+                "udec-canonical-rewrite", "canonical decimal text not reproduced by Write at its own scale") ]
+  | _ -> fail "udec-read-shape" "unexpected observation"
+
+(* ---------- dispatch ---------- *)
 let run (_prop : string) (inp : Sx.t) (obs : Sx.t) : outcome =
   match inp with
   | Sx.L [Sx.A "int-read"; b] ->
-      let d = bytes_sx b in
-      let m = sx_res_class sx_z (fix_int_read d) in
-      { model = m; spec_ok = not (is_panic obs); spec_msg = "FIXInt.Read panicked or hung";
-        cls = (match m with Sx.A "err" -> "int-read:reject" | _ -> "int-read:accept");
-        nontrivial = List.length d > 0 }
+      let d = bytes_sx b in let m = int_read_model d in
+      out ~nontrivial:(d <> []) m (cls_of "int-read" m) (int_read_spec_check d obs)
   | Sx.L [Sx.A "int-write"; n] ->
-      let m = sx_bytes (fix_int_write (z_sx n)) in
-      { model = m; spec_ok = not (is_panic obs); spec_msg = "FIXInt.Write panicked"; cls = "int-write"; nontrivial = true }
+      let n = z_sx n in out (int_write_model n) "int-write" (int_write_spec_check n obs)
   | Sx.L [Sx.A "bool-read"; b] ->
-      let m = sx_res_class sx_bool (fix_bool_read (bytes_sx b)) in
-      { model = m; spec_ok = not (is_panic obs); spec_msg = "FIXBoolean.Read panicked";
-        cls = (match m with Sx.A "err" -> "bool-read:reject" | _ -> "bool-read:accept"); nontrivial = true }
+      let d = bytes_sx b in let m = bool_read_model d in
+      out m (cls_of "bool-read" m) (bool_read_spec_check d obs)
   | Sx.L [Sx.A "bool-write"; b] ->
-      { model = sx_bytes (fix_bool_write (bool_sx b)); spec_ok = true; spec_msg = ""; cls = "bool-write"; nontrivial = true }
+      let b = bool_sx b in out (bool_write_model b) "bool-write" (bool_write_spec_check b obs)
+  | Sx.L [Sx.A "ts-read"; b] ->
+      let d = bytes_sx b in let m = ts_read_model d in
+      out ~nontrivial:(d <> []) m (cls_of ("ts-read/len" ^ string_of_int (List.length d)) m) (ts_read_spec_check d obs)
+  | Sx.L [Sx.A "ts-write"; sec; ns; p] ->
+      let sec = z_sx sec and ns = z_sx ns and p = z_sx p in
+      out (ts_write_model sec ns p) ("ts-write/p" ^ Sx.atom (sx_z p) ^ (if ts_in_rangeb (sec, ns) then "" else ":out-of-range"))
+        (ts_write_spec_check sec ns p obs)
+  | Sx.L [Sx.A "float-read"; b] ->
+      let d = bytes_sx b in let m = float_read_model d in
+      out ~nontrivial:(d <> []) m (if m = err then "float-read:reject" else "float-read:accept") (float_read_spec_check d obs)
+  | Sx.L [Sx.A "float-write"; neg; digs; dp] ->
+      out (float_write_model (bool_sx neg) (bytes_sx digs) (z_sx dp)) "float-write" (float_write_spec_check obs)
+  | Sx.L [Sx.A "float-canon"; b] ->
+      out (float_canon_model (bytes_sx b)) "float-canon" (float_canon_spec_check obs)
+  | Sx.L [Sx.A "str-rt"; b] ->
+      let d = bytes_sx b in out (id_model fix_string_read fix_string_write d) "str-rt" (id_spec_check "str" d obs)
+  | Sx.L [Sx.A "bytes-rt"; b] ->
+      let d = bytes_sx b in out (id_model fix_bytes_read fix_bytes_write d) "bytes-rt" (id_spec_check "bytes" d obs)
+  | Sx.L [Sx.A "dec-read"; b; scale] ->
+      let d = bytes_sx b and scale = z_sx scale in let m = dec_read_model d scale in
+      out ~nontrivial:(d <> []) m (cls_of "dec-read" m) (dec_read_spec_check d scale obs)
+  | Sx.L [Sx.A "dec-write"; v; e; scale] ->
+      let d = (z_sx v, z_sx e) and scale = z_sx scale in
+      out (dec_write_model d scale) "dec-write" (dec_write_spec_check d scale obs)
+  | Sx.L [Sx.A "udec-read"; b; scale] ->
+      let d = bytes_sx b and scale = z_sx scale in let m = udec_read_model d scale in
+      out ~nontrivial:(d <> []) m (cls_of "udec-read" m) (udec_read_spec_check d scale obs)
   | _ -> failwith ("types: unknown input " ^ Sx.to_string inp)
 
 let () = register "types" run
